@@ -45,6 +45,34 @@ impl Prop for C09 {
     }
     fn gen(&self, seed: u64, _tier: Tier) -> Case {
         let mut r = Rng::new(seed);
+        if r.chance(60) {
+            // 'stale-release' population (chords v2): one chord key is already held (it came out
+            // singly long ago), the other key goes down, the first key is released and pressed
+            // again: the new press completes the chord, and the queued release of the OLD press
+            // must not count as a release of the chord's key
+            let t = 60u64;
+            let beh = *r.pick(&["first-release", "all-released"]);
+            let mut case = Case { prop: "C09".into(), seed, ..Default::default() };
+            case.cfg = format!(
+                "(defcfg concurrent-tap-hold yes chords-v2-min-idle 5)\n(defsrc a b)\n(deflayer l0 x y)\n(defchordsv2 (a b) p {t} {beh} ())\n"
+            );
+            let (ka, kb) = (oscode_of("a"), oscode_of("b"));
+            let (first, second) = if r.chance(500) { (ka, kb) } else { (kb, ka) };
+            let mut ops = vec![Op::Gap(2), Op::Press(first), Op::Gap((t + 20 + r.range(0, 200)) as u32), Op::Press(second), Op::Gap(r.range(2, 6) as u32), Op::Release(first), Op::Gap(r.range(2, 5) as u32), Op::Press(first)];
+            ops.push(Op::Gap(r.range(80, 150) as u32));
+            let (r1, r2) = if r.chance(500) { (first, second) } else { (second, first) };
+            ops.push(Op::Release(r1));
+            ops.push(Op::Gap(r.range(20, 60) as u32));
+            ops.push(Op::Release(r2));
+            ops.push(Op::Gap(300));
+            case.ops = ops;
+            case.set("pop", "stale-release");
+            case.set("beh", beh);
+            case.set("min_ops", 0);
+            case.set("min_cfg", 0);
+            case.set("min_gaps", 0);
+            return case;
+        }
         let v2 = r.chance(500);
         let nk = r.range(2, 5) as usize;
         let t = *r.pick(&[5u64, 20, 60]);
@@ -244,6 +272,58 @@ impl Prop for C09 {
         let mut o = RunOut::pass();
         o.sim_ms = st.trace.sim_ms;
         probes_into(&mut o, &st.probes, &st.trace);
+        if case.param("pop") == Some("stale-release") {
+            let mut o = RunOut::pass();
+            o.sim_ms = st.trace.sim_ms;
+            o.count("pop.stale-release", 1);
+            let mut sig = fnv(0, case.cfg.as_bytes());
+            for op in &case.ops {
+                sig = fnv(sig, op.short().as_bytes());
+            }
+            o.sig = sig;
+            let d = st.down_set();
+            if !d.is_empty() {
+                o.set_fail("C09:stuck-at-end", format!("still down: {:?}: {}", d.keys, outs_short(&outs)), vec![]);
+                return o;
+            }
+            // the last two ops that are releases: the releases of the chord's keys
+            let mut tm = 0u64;
+            let mut rels: Vec<u64> = vec![];
+            for op in &case.ops {
+                match op {
+                    Op::Gap(n) => tm += *n as u64,
+                    Op::Release(_) => rels.push(tm),
+                    _ => {}
+                }
+            }
+            let (first_rel, last_rel) = (rels[rels.len() - 2], rels[rels.len() - 1]);
+            let p_down = outs.iter().find(|e| e.kind == OutKind::Press && e.key == "P").map(|e| e.t);
+            let p_up = outs.iter().filter(|e| e.kind == OutKind::Release && e.key == "P").map(|e| e.t).last();
+            o.nontrivial = p_down.is_some();
+            match (p_down, p_up) {
+                (Some(_), Some(up_t)) => {
+                    let beh = case.param("beh").unwrap_or("first-release");
+                    let due = if beh == "first-release" { first_rel } else { last_rel };
+                    if up_t < due {
+                        o.set_fail(
+                            if beh == "first-release" { "C09:chord-released-before-any-participant" } else { "C09:all-released-chord-released-early" },
+                            format!("{beh} chord P: its keys are released at {first_rel} and {last_rel}, P was released at {up_t}: {}", outs_short(&outs)),
+                            vec![],
+                        );
+                    } else if up_t > due + 12 {
+                        o.set_fail("C09:chord-released-late", format!("{beh} chord P released at {up_t}, due at {due}: {}", outs_short(&outs)), vec![]);
+                    }
+                }
+                (None, _) => {
+                    o.set_fail("C09:defined-chord-did-not-fire-exactly-once", format!("a held, b pressed and the first key pressed again within the timeout: chord P did not fire: {}", outs_short(&outs)), vec![]);
+                }
+                (Some(_), None) => {}
+            }
+            if want_sample {
+                o.sample = Some(sample_json(case, &outs, json!({"pop": "stale-release"})));
+            }
+            return o;
+        }
         let v2 = case.param_u64("v2").unwrap_or(0) == 1;
         let t = case.param_u64("t").unwrap_or(20);
         let nk = case.param_u64("nk").unwrap_or(2) as usize;
